@@ -77,6 +77,7 @@ fn run_with(p: &CaoCompiledProgram, f: &Faults) -> RunOut {
         mem_limit: f.mem_limit.unwrap_or(400 * 1024),
         value_stack: f.value_stack.unwrap_or(256),
         call_stack: f.call_stack.unwrap_or(256),
+        limit_from: None,
     };
     let cfg = CtlConfig {
         gc: GcPlan::Natural,
